@@ -32,6 +32,7 @@ type Op struct {
 	D    int    `json:"d,omitempty"`    // data index
 	Ds   []int  `json:"ds,omitempty"`   // data indices (renew, migrate)
 	Mode string `json:"mode,omitempty"` // store: new|update|force
+	G    int    `json:"g,omitempty"`    // tight gas: limit = estimated gas use minus G
 	Cm   string `json:"cm,omitempty"`   // report: explicit commit id of the fault
 	Base string `json:"base,omitempty"` // store: latest|stale|empty|embed|prefix|short|sep
 	Rep  int32  `json:"rep,omitempty"`
